@@ -103,12 +103,13 @@ func (d *Decoder) init() ([]nestedIterator, error) {
 		options = options.SetLocation(*d.cfg.location)
 	}
 
-	if d.cfg.captureTextOffsets != nil {
-		options = options.SetCaptureTextOffsets(*d.cfg.captureTextOffsets)
-	}
-
 	if d.cfg.initialTextOffset != nil {
 		options = options.SetInitialTextOffset(*d.cfg.initialTextOffset)
+	}
+
+	// after the initial offset (which implies capture), so that an explicit false is kept
+	if d.cfg.captureTextOffsets != nil {
+		options = options.SetCaptureTextOffsets(*d.cfg.captureTextOffsets)
 	}
 
 	htmlDocument, err := html.ParseDocument(d.r, options)
